@@ -11,7 +11,7 @@ FIELD_TYPES = {
     'mutation.Assign.op': 'str', 'mutation.Delete.op': 'str',
     'mutation.Assign.path': 'inst:core.Path', 'mutation.Assign._orig_path': 'inst:core.Path',
     'mutation.Delete.path': 'inst:core.Path', 'mutation.Delete._orig_path': 'inst:core.Path',
-    'reduction.Flatten.lazy': 'bool',
+    'reduction.Flatten.lazy': 'bool', 'core._ArgValuator.cache': 'dict',
 }
 
 # keys that every scope chain binds (ScopeInv; established by glom() and preserved by _glom)
